@@ -29,12 +29,15 @@ CLAIMS = {
         design="DESIGN.md §5 C13"),
     'C15': dict(
         text="Lean theorems for every string: get_message_type / get_message_info (the functions the MLLP server routes on) return or raise ParserError / "
-             "InvalidEncodingChars, never a crash, and parse_message fails exactly as the header does before touching the tables. For parse_message / "
+             "InvalidEncodingChars, never a crash, and parse_message fails exactly as the header does before touching the tables. Beyond the header: the constructor of "
+             "a segment (Hl7.Pe.segmentNew = Segment(name), the first thing parse_segment does with a line) cannot crash on a table entry that passes WF.segOk, for every "
+             "spelling of the name (C15_segmentNew_wf), and — through the per-version kernel evaluation segWF over the regenerated tables — for EVERY name not on the "
+             "guard list of finding D2, in each of the 12 versions (ObV*.segmentNew_nocrash). For the rest of parse_message / "
              "to_er7 / validate the model keeps every partial Python operation as an explicit crash branch and is compared with /repo on truncation-at-"
              "every-byte, mutation and junk streams (exception class included); the implementation-side oracle decides the property there (partial: "
              "reachability of the crash branches is not a theorem; it is false for the malformed table rows of finding D2).",
         note=NOTE_COMMON + "validate() is run with the standard tables; cased non-ASCII input and multi-character delimiters are outside the model.",
-        technique="Lean 4 proof (case analysis of the header parser) + differential correspondence on malformed input incl. exception kinds",
+        technique="Lean 4 proof (case analysis of the header parser; induction over the table rows lifted by decide +kernel over the regenerated tables) + differential correspondence on malformed input incl. exception kinds",
         design="DESIGN.md §5 C15"),
     'C01': dict(
         text="Proved for all inputs: C01_cascade - for EVERY list of levels (positional levels of any width and separator, repetition levels, any depth) and every text canonical "
